@@ -17,6 +17,7 @@ type legCfg struct {
 	TraceN     int // generated queries / histories per trace file
 	TraceFiles int
 	Mode       string // exec legs: worker mode
+	Expect     string // mc legs: the named invariant must be VIOLATED by this configuration (a deviation the model can express)
 	CallEv     string // name of the event that starts a history (default "call")
 	APIKinds   []string
 }
@@ -161,5 +162,30 @@ var props = map[string]*propCfg{
 		Assumptions: baseAssumptions,
 		Quick:       []legCfg{mc("nested", "MC_C08", "C08_quick.cfg", 10*time.Minute)},
 		Thorough:    []legCfg{mc("nested", "MC_C08", "C08_thorough.cfg", 40*time.Minute)},
+	},
+	"C19": {
+		ID: "C19", Level: "fault_enumeration", Exhaustive: true,
+		Rule:        "TLC enumerates 21 query shapes - the fault-injecting function boom(x) (identity unless told to fail) in WHERE, select list, both, a CASE arm, HAVING, a CTE body, a derived table, a derived table used as a join side, a row-scoped select-list subquery, an IN subquery, EXISTS, the left / right UNION branch, an inner dimension of a multi-dimensional FROM, two levels deep (subquery inside a CTE body); RAISE_WHEN / RAISE firing on some row; type errors in select list, WHERE, a CTE body and a subquery - x every table of 1..MaxRows rows (with nested arrays), and gives the fault-free meaning. Per case and per option setting (plain / Wrapped) the harness runs fault-free (result must equal the exported one; the number N of boom invocations is measured), then once for every k in 1..N with the k-th invocation failing: New/Exec must report an error and return no rows, and the same statement re-run on the same document object must return the fault-free result; self-failing shapes must fail and leave a follow-up query correct. Non-trivial: at least one boom invocation; distinct = distinct (document, shape).",
+		Assumptions: append([]string{"a function cannot be placed inside a join ON condition (the engine only accepts column comparisons there); the join position is covered by a failing derived table used as a join side"}, baseAssumptions...),
+		Quick:       []legCfg{mc("faults", "MC_C19", "C19_quick.cfg", 10*time.Minute)},
+		Thorough:    []legCfg{mc("faults", "MC_C19", "C19_thorough.cfg", 30*time.Minute)},
+	},
+	"C11": {
+		ID: "C11", Level: "model_checking", Exhaustive: true,
+		Rule:        "Markers.tla models what a query writes into the caller's document (the <- back-reference per row with nesting, CTE entries, the EXISTS row extension) with a failure possible at every step; TLC checks DocRestored on all behaviours (3 rows, nesting depth 3) and, as a non-vacuity audit, that each of the three repaired deviations of the pinned tree violates it. Binding: every case of the fault-shape module MC_C19 (26 shapes with the fault-injecting function in every clause position x tables) is run fault-free and with the k-th invocation failing for every k, plain and Wrapped, and reduced configurations of the families of C01 (filters, IN subquery), C03 (GROUP BY), C05 (ORDER BY / LIMIT), C06 (DISTINCT / UNION), C07 (CTEs, derived tables, subqueries, EXISTS) and C08 (multi-dimensional FROM) are run plain and Wrapped; after every New + Exec - successful or failed, and after a follow-up statement - the caller's document is compared with a deep copy taken before (cycle-safe: no added / removed key at any depth, no changed array element). Non-trivial: the query contains a subquery, EXISTS, CTE, derived table, join, ORDER BY, aggregate or an injected fault; distinct = distinct (document, query).",
+		Assumptions: baseAssumptions,
+		Quick: []legCfg{
+			{Kind: "mc", Name: "markers", Module: "Markers", Cfg: "Markers_ok.cfg", Timeout: 5 * time.Minute, TLCWorkers: 4, NoExport: true},
+			{Kind: "mc", Name: "dev-post", Module: "Markers", Cfg: "Markers_dev_PostProcessorCleanup.cfg", Timeout: 5 * time.Minute, TLCWorkers: 1, NoExport: true, Expect: "DocRestored"},
+			{Kind: "mc", Name: "dev-cte", Module: "Markers", Cfg: "Markers_dev_CteInCallerMap.cfg", Timeout: 5 * time.Minute, TLCWorkers: 1, NoExport: true, Expect: "DocRestored"},
+			{Kind: "mc", Name: "dev-exists", Module: "Markers", Cfg: "Markers_dev_ExistsInPlace.cfg", Timeout: 5 * time.Minute, TLCWorkers: 1, NoExport: true, Expect: "DocRestored"},
+			mc("faults", "MC_C19", "C19_quick.cfg", 10*time.Minute),
+			mc("compose", "MC_C07", "C11_C07.cfg", 10*time.Minute),
+			mc("where", "MC_C01", "C11_C01.cfg", 10*time.Minute),
+			mc("group", "MC_C03", "C11_C03.cfg", 10*time.Minute),
+			mc("order", "MC_C05", "C11_C05.cfg", 10*time.Minute),
+			mc("distinct", "MC_C06", "C11_C06.cfg", 10*time.Minute),
+			mc("nested", "MC_C08", "C11_C08.cfg", 10*time.Minute),
+		},
 	},
 }
